@@ -118,6 +118,7 @@ func (p *Parser) parseTransaction() *ast.Transaction {
 
 	if p.current.Type == TokenText {
 		desc := p.current.Value
+		tx.PayeeRange = textRange(p.current)
 		p.advance()
 
 		if p.current.Type == TokenPipe {
@@ -882,6 +883,19 @@ func (p *Parser) errorAt(pos Position, format string, args ...any) {
 		Message: fmt.Sprintf(format, args...),
 		Pos:     pos,
 	})
+}
+
+// textRange covers the text of a token without the blanks that may trail it.
+func textRange(tok Token) ast.Range {
+	text := strings.TrimRight(tok.Value, " \t")
+	return ast.Range{
+		Start: toASTPosition(tok.Pos),
+		End: ast.Position{
+			Line:   tok.Pos.Line,
+			Column: tok.Pos.Column + utf16Len(text),
+			Offset: tok.Pos.Offset + len(text),
+		},
+	}
 }
 
 // symbolEnd is where a commodity symbol ends. A symbol lexed as free text may be
